@@ -19,7 +19,7 @@ import copy, math, random
 from concurrent.futures import ThreadPoolExecutor
 from fractions import Fraction
 from ..core import Check, MachineryFailure
-from .. import tlc, tracecheck, symreplay
+from .. import tlc, tracecheck, symreplay, symcommon
 from ..graph import Graph, canon
 from ..impl_reducers import ReducerImpl, Params, Matcher, SPEC_KIND, CLASS, TRACE_KINDS, EVENT_KINDS, functional_fold
 
@@ -29,9 +29,10 @@ INVS = ["TypeOK", "FoldEqClosed", "Refinement", "ViewPast", "DumpNewestFirst", "
 ALL_SPEC_KINDS = {"near", "cum", "snear", "scum", "ev_inf", "ev_nan", "ev_zero", "pass", "ema", "ca"}
 
 
-def consts(kinds, depth, xs, durs=(0, 8), incls=(True, False), E0=1, tols=(0, 1), tens=False, target=1, dt=4):
+def consts(kinds, depth, xs, durs=(0, 8), incls=(True, False), E0=1, tols=(0, 1), tens=False, target=1, dt=4,
+           dtset=()):
     return dict(Kinds=set(kinds), E0=E0, Dt0=dt, DurSet=set(durs), InclSet=set(incls), XS=set(xs), Target=target,
-                Tols=set(tols), TensView=tens, MaxDepth=depth)
+                Tols=set(tols), DtSet=set(dtset), TensView=tens, MaxDepth=depth)
 
 
 def mc_configs(tier):
@@ -48,6 +49,8 @@ def mc_configs(tier):
             ("stats-N12-T3", consts({"pass", "ema", "ca"}, 4, {0, 1, 2}, durs=(0, 8), incls=(False,))),
             ("E2-tensor-view", consts({"cum", "snear", "ev_zero", "ema"}, 3, {0, 1}, durs=(8,), incls=(True,),
                                       E0=2, tols=(0,), tens=True)),
+            ("setdt-T4", consts({"cum", "near", "scum", "ev_zero", "ev_inf", "ema"}, 5, {0, 1}, durs=(0,),
+                                incls=(False,), tols=(0,), dtset=(2, 4, 6))),
         ]
     return [
         ("target-T8", consts({"near", "cum"}, 9, {0, 1}, durs=(12,), incls=(False, True))),
@@ -62,52 +65,17 @@ def mc_configs(tier):
                                   durs=(8,), incls=(True, False), E0=2, tols=(0, 1), tens=True)),
         ("E2-tensor-view-scaled", consts({"snear", "scum"}, 3, {0, 2}, durs=(8,), incls=(True,), E0=2, tols=(0,),
                                          tens=True)),
+        ("setdt-T5", consts(ALL_SPEC_KINDS, 6, {0, 1}, durs=(0,), incls=(False, True), tols=(0,), dtset=(2, 4, 6))),
     ]
 
 
-def run_mc(chk: Check, configs, workers_each=4, parallel=4, timeout=3000):
-    def one(item):
-        name, c = item
-        cfg = tlc.cfg_text(constants=c, invariants=INVS, constraints=["Bounded"])
-        return name, tlc.run("ReducersMC", cfg, workers=workers_each, timeout=timeout)
-
-    with ThreadPoolExecutor(max_workers=parallel) as ex:
-        results = list(ex.map(one, configs))
-    for name, res in results:
-        if res.violated:
-            chk.violation({"clause": "MC:" + ",".join(res.violated), "site": "spec", "config": name},
-                          {"config": name, "tlc_tail": res.out[-4000:]})
-        elif not res.ok:
-            raise MachineryFailure(f"TLC run {name} did not complete: {res.out[-2500:]}")
-        chk.add_tlc("mc:" + name, res)
-        chk.note(f"mc {name}: {res.distinct} states, {res.generated} transitions, {res.wall:.1f}s "
-                 f"violated={res.violated}")
+def run_mc(chk: Check, configs):
+    symcommon.run_mc(chk, "ReducersMC", configs, INVS)
 
 
 # ------------------------------------------------------------------ direction A
 def gen_graph(chk: Check, name: str, c: dict) -> Graph:
-    cfg = tlc.cfg_text(constants=c, invariants=["Emit"], constraints=["Bounded"])
-    res = tlc.run("ReducersMC", cfg, workers=1, timeout=3000)
-    if not res.ok:
-        raise MachineryFailure(f"TLC generation run {name} failed: {res.out[-2000:]}")
-    g = Graph()
-    for rec in res.printed():
-        if not isinstance(rec, dict) or "s" not in rec or "mut" not in rec:
-            continue
-        k = canon(rec["s"])
-        if k in g.states:
-            continue
-        g.states[k] = rec["s"]
-        g.table[k] = [(o["op"], o["res"]) for o in rec["mut"]] + \
-                     [(o["op"], [{"st": rec["s"], "ret": r} for r in o["rets"]]) for o in rec["qry"]]
-        g.order.append(k)
-    # (TLC also evaluates the Emit "invariant" on the successors of the deepest level, which the
-    # depth constraint then discards: the emitted graph may hold more states than TLC counts)
-    if len(g.states) < res.distinct:
-        raise MachineryFailure(f"emitted graph {name} has {len(g.states)} states, TLC reports {res.distinct}")
-    chk.add_tlc("gen:" + name, res)
-    g.name = name
-    return g
+    return symcommon.gen_graph(chk, "ReducersMC", name, c)
 
 
 def init_key(g: Graph, rk: str, durk: int, incl: bool):
@@ -358,7 +326,11 @@ def run(tier: str, seed: int) -> int:
     t0 = _t.time()
     if tier == "quick":
         gens = [("gen-T3", consts(ALL_SPEC_KINDS, 4, {0, 1, 2}, durs=(0, 8), incls=(True,), tols=(0, 1)), 14),
-                ("gen-T5-target", consts({"near", "cum", "ev_zero"}, 6, {0, 1}, durs=(8,), incls=(False,), tols=(0,)), 25)]
+                ("gen-T5-target", consts({"near", "cum", "ev_zero"}, 6, {0, 1}, durs=(8,), incls=(False,), tols=(0,)), 25),
+                ("gen-setdt-T3", consts({"cum", "near", "scum", "ev_zero", "ema"}, 4, {0, 1}, durs=(0,), incls=(False,),
+                                        tols=(0,), dtset=(2, 4)), 40),
+                ("gen-E2-T2", consts({"cum", "ev_zero", "pass", "ca"}, 2, {0, 1}, durs=(8,), incls=(True,), E0=2,
+                                     tols=(0,), tens=True), 6)]
         nparams = 2
     else:
         gens = [("gen-target-T5", consts({"near", "cum"}, 5, {0, 1}, durs=(0, 8), incls=(True, False), tols=(0, 1)), 150),
@@ -366,10 +338,14 @@ def run(tier: str, seed: int) -> int:
                 ("gen-event-T5", consts({"ev_inf", "ev_nan", "ev_zero"}, 5, {0}, durs=(0, 8), incls=(True, False),
                                         tols=(0, 1)), 150),
                 ("gen-stats-T4", consts({"pass", "ema", "ca"}, 4, {0, 1, 2}, durs=(0, 8), incls=(True, False),
-                                        tols=(0, 1)), 150)]
+                                        tols=(0, 1)), 150),
+                ("gen-setdt-T4", consts(ALL_SPEC_KINDS, 5, {0, 1}, durs=(0,), incls=(False,), tols=(0,),
+                                        dtset=(2, 4, 6)), 200),
+                ("gen-E2-T2", consts(ALL_SPEC_KINDS - {"snear", "scum"}, 2, {0, 1}, durs=(8,), incls=(True, False), E0=2,
+                                     tols=(0, 1), tens=True), 40)]
         nparams = 4
     # the generation runs (one TLC worker each) overlap with the model-checking runs
-    gen_pool = ThreadPoolExecutor(max_workers=4)
+    gen_pool = ThreadPoolExecutor(max_workers=6)
     gen_futs = [gen_pool.submit(gen_graph, chk, it[0], it[1]) for it in gens]
     # ---- T
     run_mc(chk, mc_configs(tier))
@@ -405,7 +381,7 @@ def run(tier: str, seed: int) -> int:
                                 if mode == "bool":
                                     pd = dict(pd, u=1.0)
                             P = Params(D=c["Dt0"], obsmode=mode, **pd)
-                            st, mism = replay_class(chk, g, rk, durk, incl, P, inplace, rng, max_states)
+                            st, mism = replay_class(chk, g, rk, durk, incl, P, inplace, rng, max_states, E=c["E0"])
                             tot_e += st.edges
                             tot_m += st.mismatches
                             if first and st.pairs:
@@ -414,7 +390,8 @@ def run(tier: str, seed: int) -> int:
                                             "state_hist": g.states[k]["h"]})
                                 first = False
         chk.note(f"replay {name}: {tot_e} (state, operation) pairs executed over all classes, mismatches={tot_m}")
-        functional_replay(chk, g, rng, 60 if tier == "quick" else 600)
+        if not c["DtSet"]:
+            functional_replay(chk, g, rng, 60 if tier == "quick" else 600)
 
     chk.note(f"phase replay: {_t.time() - t0:.1f}s")
     t0 = _t.time()
@@ -468,3 +445,42 @@ def run(tier: str, seed: int) -> int:
         chk.note(f"canary: corrupted trace rejected at line {line}")
     chk.note(f"phase traces: {_t.time() - t0:.1f}s")
     return chk.finish()
+
+
+def replay(path: str) -> int:
+    import json
+    from .. import symcommon
+    doc = json.loads(open(path).read())
+    sig, rep = doc["signature"], doc["replay"]
+    if sig.get("site", "").startswith("graph-replay"):
+        P = Params(**rep["params"])
+        hdr = dict(rep["hdr"], params=P)
+        return symcommon.rerun_graph_record(PID, doc, lambda: ReducerImpl(hdr), Matcher(P))
+    if sig.get("site") == "functional":
+        from ..symeval import close
+        P = Params(**rep["params"])
+        got = functional_fold(sig["kind"], sig["variant"], P, rep["history"])
+        exp, mag = P.value(rep["closed_form"])
+        if not close(exp, got, mag):
+            print(f"VIOLATION property={PID} replay=(re-executed) functional fold {got!r}, closed form {exp!r}")
+            return 1
+        print(f"[{PID}] replay: the recorded behaviour now conforms to the specification")
+        return 0
+    if sig.get("site") == "dyadic-trace":
+        cfg = rep["cfg"]
+        P = Params(**cfg["params"])
+        impl = ReducerImpl({"rk": cfg["kind"], "durk": rep["hdr"]["durk"], "incl": rep["hdr"]["incl"],
+                            "shape": tuple(cfg["shape"]), "inplace": cfg["inplace"], "params": P})
+        srk = SPEC_KIND[cfg["kind"]]
+        evs = []
+        for o in rep["ops"]:
+            ret = impl.apply(o)
+            evs.append({"op": o, "ret": dv_ret(srk, ret, P), "st": dv_state(srk, impl.project(), P)})
+        _, rej = tracecheck.validate("ReducersTrace", [{"hdr": dict(rep["hdr"], waive=[], cfg=cfg), "ev": evs}], shards=1)
+        if rej:
+            print(f"VIOLATION property={PID} replay=(re-executed) trace rejected at line {rej[0]['line']}")
+            return 1
+        print(f"[{PID}] replay: the recorded execution is now accepted by the trace specification")
+        return 0
+    print(f"[{PID}] replay: specification-level counterexample (TLC output recorded in the file)")
+    return 1
